@@ -81,6 +81,32 @@ def h_srv17(ctx, t, n):
                                             u.sp_header.seq_count == f["sc"], u.ccsds_version == f["ver"]))
     ctx.holds("srv17 repack identical", u.pack() == raw)
     ctx.holds("srv17 inner tm equal", u.pus_tm == tm.pus_tm)
+    # a service-17 packet produced by the generic class (any message counter) decodes through the wrapper unchanged
+    g2 = dict(f, svc=17)
+    tm2 = PusTm(service=17, subservice=f["sub"], timestamp=ts, source_data=data, apid=f["apid"], seq_count=f["sc"],
+                message_counter=f["mc"], space_time_ref=f["tref"], destination_id=f["dest"], packet_version=f["ver"])
+    raw2 = tm2.pack()
+    ref2, _ = ref_tm(ctx, g2, items_of(ts), items_of(data))
+    ctx.holds("srv17 generic pack==reference", raw2 == ctx.bytes_of(ref2))
+    e, u2 = call(Service17Tm.unpack, raw2, t)
+    ctx.holds("srv17 wrapper decode of a generic service-17 packet keeps every field and re-packs identically",
+              e is None and sym_and(u2.pus_tm == tm2, u2.pack() == raw2, u2.pus_tm.pus_tm_sec_header.message_counter == f["mc"]), exc_name(e))
+
+
+def h_setter(ctx, t, n0, n1):
+    """source data assigned after construction: the packet is the one a constructor call with that data would give"""
+    f = tm_fields(ctx)
+    ts = ctx.octets("ts", t)
+    d0, d1 = ctx.octets("data0", n0), ctx.octets("data1", n1)
+    kw = dict(service=f["svc"], subservice=f["sub"], timestamp=ts, apid=f["apid"], seq_count=f["sc"], message_counter=f["mc"],
+              space_time_ref=f["tref"], destination_id=f["dest"], packet_version=f["ver"])
+    tm = PusTm(source_data=d0, **kw)
+    tm.tm_data = d1
+    raw = tm.pack()
+    ref, total = ref_tm(ctx, f, items_of(ts), items_of(d1))
+    ctx.holds("pack after tm_data assignment == reference", sym_and(raw == ctx.bytes_of(ref), tm.packet_len == total))
+    e, u = call(PusTm.unpack, raw, t)
+    ctx.holds("packet packed after tm_data assignment decodes to an equal packet", e is None and sym_and(u == tm, u.tm_data == d1), exc_name(e))
 
 
 def h_refuse(ctx, which, side):
@@ -146,6 +172,10 @@ def cases(tier):
         for n in tier_pick(tier, (0, 2), (0, 1, 2, 5)):
             cs.append(Case("srv17-t%d-n%d" % (t, n), "srv17", h_srv17, dict(t=t, n=n),
                            bounds="service-17 wrapper, timestamp %d, source data %d octets" % (t, n)))
+    for t in tier_pick(tier, (0, 2, 7), (0, 1, 2, 4, 7, 12)):
+        for n0, n1 in ((0, 2), (3, 1)):
+            cs.append(Case("setter-t%d-%dto%d" % (t, n0, n1), "setter", h_setter, dict(t=t, n0=n0, n1=n1),
+                           bounds="tm_data assigned after construction, timestamp %d octets, data %d -> %d octets, all field values" % (t, n0, n1)))
     for which in ("svc", "sub", "mc"):
         for side in ("neg", "big", "edge"):
             cs.append(Case("refuse-%s-%s" % (which, side), "refuse", h_refuse, dict(which=which, side=side),
